@@ -303,6 +303,7 @@ fn transfer(c: &XCase, rep: &mut Report, dir: &std::path::Path) {
         match r {
             Ok((n, bytes, ia, ib)) => {
                 rep.add("messages_received_intact", n);
+                rep.evaluations += n; // every received message is compared with what was sent
                 rep.add("payload_bytes", bytes);
                 rep.count(&format!("connections.{}", kind.name()));
                 if !ids.insert(ia) || !ids.insert(ib) {
@@ -328,7 +329,7 @@ async fn cancel_scenario<S: Socket>(kind: Kind, mut a: Connection<S>, b: RawOrZl
     let mut rng = Rng::derive(seed, 1919);
     let mut submitted = Vec::new();
     let mut id = 0u64;
-    let mut msg = |len: usize, id: &mut u64| {
+    let msg = |len: usize, id: &mut u64| {
         let b = body(2, *id, len);
         let i = *id;
         *id += 1;
